@@ -2,14 +2,15 @@ package main
 
 import (
 	"fmt"
-	"os"
 	"go/ast"
 	"go/constant"
 	"go/token"
 	"go/types"
 	"math/big"
+	"os"
 	"sort"
 	"strings"
+	"sync"
 
 	"golang.org/x/tools/go/ssa"
 
@@ -34,41 +35,49 @@ type Obligation struct {
 
 // Exec verifies one top-level function.
 type Exec struct {
-	W        *World
-	Prog     *Program
-	Fn       *ssa.Function
-	FC       *FuncContract
-	PC       *PkgContracts
-	assumes  []*smt.Term
-	Obls     []*Obligation
-	keys     map[string]*HeapKey
-	epochCtr int
-	bitsDecl map[string]int
-	Abstr    map[string]bool // abstraction notes
-	Unsound  map[string]bool // constructs that make results untrustworthy
-	quiet    int             // >0: suppress obligations (spec-level inlining)
-	noCover  int
-	siteCtr  map[string]int
-	depth    int
-	entrySt  *State
-	params   map[string]Val
-	paramOrd []string
+	W           *World
+	Prog        *Program
+	divFacts    map[[2]int]bool
+	localFacts  []*smt.Term     // conditions of the enclosing ?: branches while a specification is evaluated
+	unsignedUF  map[string]bool // uninterpreted functions whose result has an unsigned Go type
+	atoms       map[int]bool
+	Fn          *ssa.Function
+	FC          *FuncContract
+	PC          *PkgContracts
+	assumes     []*smt.Term
+	Obls        []*Obligation
+	keys        map[string]*HeapKey
+	epochCtr    int
+	bitsDecl    map[string]int
+	Abstr       map[string]bool // abstraction notes
+	Unsound     map[string]bool // constructs that make results untrustworthy
+	quiet       int             // >0: suppress obligations (spec-level inlining)
+	noCover     int
+	siteCtr     map[string]int
+	depth       int
+	entrySt     *State
+	params      map[string]Val
+	paramOrd    []string
 	inlineStack []*ssa.Function
-	ModelTerms map[string]*smt.Term
+	ModelTerms  map[string]*smt.Term
 	// recursive spec functions
-	recOpen  []recOpenT
-	recDefs  map[string]*recDef
-	recOrder []string
-	recMemo  map[string]string
-	recReads map[string]map[string]*smt.Term
-	recCtr   int
-	readLog  map[string]*smt.Term
+	recOpen   []recOpenT
+	recDefs   map[string]*recDef
+	recOrder  []string
+	recMemo   map[string]string
+	recReads  map[string]map[string]*smt.Term
+	recCtr    int
+	readLog   map[string]*smt.Term
 	loopParts map[string][]*Obligation
 	loopOrder []string
+	buildMu   sync.Mutex // serialises lazy query construction (the term context is not thread-safe)
+	assumed   map[int]bool
+	styleT    types.Type
+	tokenLog  []string
 	exitParts map[string][]*Obligation
 	exitOrder []string
-	idxTerms map[int]bool
-	idxOrder []*smt.Term
+	idxTerms  map[int]bool
+	idxOrder  []*smt.Term
 }
 
 func (ex *Exec) noteIdx(t *smt.Term) {
@@ -113,7 +122,111 @@ func (ex *Exec) assume(t *smt.Term) {
 	if t == nil || t.IsTrue() {
 		return
 	}
+	if ex.assumed == nil {
+		ex.assumed = map[int]bool{}
+	}
+	if ex.assumed[t.ID] {
+		return // already assumed earlier (prefix order is preserved: the first occurrence stays)
+	}
+	ex.assumed[t.ID] = true
 	ex.assumes = append(ex.assumes, t)
+	ex.recordAtoms(t)
+}
+
+// recordAtoms remembers the conjuncts of an unconditional assumption (used to pick the simple form of a
+// division when the sign of an operand is already known).
+func (ex *Exec) recordAtoms(t *smt.Term) {
+	if ex.atoms == nil {
+		ex.atoms = map[int]bool{}
+	}
+	if t.Kind == smt.KApp && t.Op == "and" {
+		for _, a := range t.Args {
+			ex.recordAtoms(a)
+		}
+		return
+	}
+	ex.atoms[t.ID] = true
+}
+
+func (ex *Exec) factHolds(t *smt.Term) bool {
+	if ex.atoms != nil && ex.atoms[t.ID] {
+		return true
+	}
+	for _, f := range ex.localFacts {
+		if f == t {
+			return true
+		}
+		if f.Kind == smt.KApp && f.Op == "and" {
+			for _, a := range f.Args {
+				if a == t {
+					return true
+				}
+			}
+		}
+	}
+	return false
+}
+
+func (ex *Exec) knownPos(b *smt.Term) bool {
+	c := ex.W.C
+	if b.Sort != smt.Int {
+		return false
+	}
+	if n, ok := b.IntVal(); ok {
+		return n.Sign() > 0
+	}
+	zero, one := c.IntLit(0), c.IntLit(1)
+	for _, t := range []*smt.Term{c.Gt(b, zero), c.Lt(zero, b), c.Ge(b, one), c.Le(one, b)} {
+		if ex.factHolds(t) {
+			return true
+		}
+	}
+	if ex.factHolds(c.Not(c.Eq(b, zero))) && ex.knownNonneg(b) {
+		return true
+	}
+	return false
+}
+
+// knownNonneg: structurally non-negative, or assumed so.
+func (ex *Exec) knownNonneg(b *smt.Term) bool {
+	c := ex.W.C
+	if b.Sort != smt.Int {
+		return false
+	}
+	if n, ok := b.IntVal(); ok {
+		return n.Sign() >= 0
+	}
+	zero := c.IntLit(0)
+	if ex.factHolds(c.Ge(b, zero)) || ex.factHolds(c.Le(zero, b)) {
+		return true
+	}
+	if b.Kind == smt.KApp {
+		switch b.Op {
+		case "mod", "bv2nat":
+			return true // SMT-LIB mod is never negative
+		case "div":
+			return len(b.Args) == 2 && ex.knownNonneg(b.Args[0]) && ex.knownPos(b.Args[1])
+		case "+", "*":
+			for _, a := range b.Args {
+				if !ex.knownNonneg(a) {
+					return false
+				}
+			}
+			return true
+		case "ite":
+			return ex.knownNonneg(b.Args[1]) && ex.knownNonneg(b.Args[2])
+		}
+		if ex.unsignedUF[b.Op] {
+			return true
+		}
+	}
+	zero1 := c.IntLit(1)
+	for _, t := range []*smt.Term{c.Gt(b, zero), c.Lt(zero, b), c.Ge(b, zero1), c.Le(zero1, b)} {
+		if ex.factHolds(t) {
+			return true
+		}
+	}
+	return false
 }
 
 func (ex *Exec) note(m map[string]bool, s string) { m[s] = true }
@@ -173,6 +286,9 @@ func (ex *Exec) constVal(cst *ssa.Const) Val {
 		if !ok {
 			i64, _ := constant.Int64Val(constant.ToInt(cst.Value))
 			n = big.NewInt(i64)
+		}
+		if bw, isBV := ex.W.BVWidth(t); isBV {
+			return Val{T: t, Tm: c.BVLit(n.Uint64(), bw)}
 		}
 		return Val{T: t, Tm: c.BigLit(n)}
 	case isFloat(t):
@@ -312,10 +428,11 @@ func (ex *Exec) Run() {
 	ex.entrySt = st.clone()
 	fr := ex.newFrame(fn, "", ex.FC, ex.PC)
 	fr.top = true
+	ex.bindFreeVars(fr, st)
 	// requires
 	if ex.FC != nil {
 		for _, cl := range ex.FC.Clauses {
-			if cl.Kind != "requires" {
+			if cl.Kind != "requires" && cl.Kind != "assume" {
 				continue
 			}
 			env := ex.envFor(fr, st, st, nil)
@@ -323,6 +440,10 @@ func (ex *Exec) Run() {
 				env.vars[p.Name()] = args[i]
 			}
 			ex.assume(ex.evalBool(env, cl.E, cl))
+			if cl.Kind == "assume" {
+				// an `assume <expr> -- reason` clause is a fact about the environment taken on trust at entry (listed in the evidence)
+				ex.note(ex.Abstr, "assumed-at-entry: "+cl.Text)
+			}
 		}
 	}
 	// entry lemmas: proved from the preconditions alone (a small query), then available to every later obligation
@@ -350,6 +471,7 @@ func (ex *Exec) Run() {
 	rets, out, reach := ex.runFrame(fr, args, st, c.True())
 	ex.flushExitAsserts()
 	ex.flushLoopParts()
+	ex.vocabObligations()
 	if out == nil {
 		return
 	}
@@ -482,6 +604,15 @@ type loopInfo struct {
 	asserts []*Clause
 	decr    []*Clause
 	varPre  []*smt.Term // values of decreases expressions at loop head
+	headSt  *State      // state at the loop head (after havoc), for head(...) in loop assertions
+	keepOld bool        // `loop N preserves old`: memory that existed when the loop was entered is written only through the tracked bases
+	kept    []keptHeap  // per wholly havocked component: its value and the allocation frontier at loop entry
+}
+
+type keptHeap struct {
+	key *HeapKey
+	pre *smt.Term
+	brk *smt.Term
 }
 
 func (ex *Exec) newFrame(fn *ssa.Function, prefix string, fc *FuncContract, pc *PkgContracts) *Frame {
@@ -502,6 +633,8 @@ func (ex *Exec) newFrame(fn *ssa.Function, prefix string, fc *FuncContract, pc *
 							li.decr = append(li.decr, cl)
 						case "assert":
 							li.asserts = append(li.asserts, cl)
+						case "preserves":
+							li.keepOld = true
 						}
 					}
 				}
@@ -614,6 +747,33 @@ type retInfo struct {
 	st    *State
 }
 
+// bindFreeVars gives the captured variables of a function literal their values: those passed by the inlining
+// caller, or fresh non-nil distinct cells when the literal is verified on its own.
+func (ex *Exec) bindFreeVars(fr *Frame, st0 *State) {
+	c := ex.W.C
+	fn := fr.fn
+	for i, fv := range fn.FreeVars {
+		if _, done := fr.vals[fv]; done {
+			continue
+		}
+		if i < len(fr.free) {
+			fr.vals[fv] = fr.free[i]
+		} else {
+			fr.vals[fv] = ex.fresh("freevar_"+fv.Name(), fv.Type())
+			if _, isPtr := fv.Type().Underlying().(*types.Pointer); isPtr && fr.vals[fv].Tm != nil {
+				// a captured variable lives in a cell allocated by the enclosing function: never nil
+				ex.assume(c.Not(c.Eq(fr.vals[fv].Tm, c.IntLit(0))))
+				ex.boundPtr(fr.vals[fv], st0)
+				for j := 0; j < i; j++ {
+					if o := fr.vals[fn.FreeVars[j]]; o.Tm != nil && o.Tm.Sort == fr.vals[fv].Tm.Sort {
+						ex.assume(c.Not(c.Eq(o.Tm, fr.vals[fv].Tm)))
+					}
+				}
+			}
+		}
+	}
+}
+
 // runFrame symbolically executes fn from state st under condition reach.
 // It returns the merged results, the merged exit state and the exit condition.
 func (ex *Exec) runFrame(fr *Frame, args []Val, st0 *State, reach0 *smt.Term) ([]Val, *State, *smt.Term) {
@@ -625,13 +785,7 @@ func (ex *Exec) runFrame(fr *Frame, args []Val, st0 *State, reach0 *smt.Term) ([
 	for i, p := range fn.Params {
 		fr.vals[p] = args[i]
 	}
-	for i, fv := range fn.FreeVars {
-		if i < len(fr.free) {
-			fr.vals[fv] = fr.free[i]
-		} else {
-			fr.vals[fv] = ex.fresh("freevar_"+fv.Name(), fv.Type())
-		}
-	}
+	ex.bindFreeVars(fr, st0)
 	var rets []retInfo
 	order := rpo(fn)
 	for _, b := range order {
@@ -746,6 +900,9 @@ func (ex *Exec) exitAsserts(fr *Frame, b *ssa.BasicBlock, st *State, cur *smt.Te
 			continue
 		}
 		n++
+		if cl.Site != 0 && cl.Site != ex.returnOrdinal(fr.fn, ret) {
+			continue
+		}
 		env := ex.envFor(fr, st, fr.entryState(ex), nil)
 		env.atBlock = b
 		env.atEnd = true
@@ -764,8 +921,37 @@ func (ex *Exec) exitAsserts(fr *Frame, b *ssa.BasicBlock, st *State, cur *smt.Te
 		if _, seen := ex.exitParts[label]; !seen {
 			ex.exitOrder = append(ex.exitOrder, label)
 		}
-		ex.exitParts[label] = append(ex.exitParts[label], &Obligation{Kind: "exit", Guard: cur, Goal: ex.evalBool(env, cl.E, cl), NAssume: len(ex.assumes), Pos: ex.Prog.Fset.Position(ret.Pos())})
+		goal := ex.evalBool(env, cl.E, cl)
+		ex.exitParts[label] = append(ex.exitParts[label], &Obligation{Kind: "exit", Guard: cur, Goal: goal, NAssume: len(ex.assumes), Pos: ex.Prog.Fset.Position(ret.Pos())})
+		if cl.Lemma {
+			ex.assume(ex.W.C.Implies(cur, goal))
+		}
 	}
+}
+
+// returnOrdinal numbers the return statements of fn in source order, from 1.
+func (ex *Exec) returnOrdinal(fn *ssa.Function, ret *ssa.Return) int {
+	var rs []*ssa.Return
+	for _, b := range fn.Blocks {
+		for _, in := range b.Instrs {
+			if r, ok := in.(*ssa.Return); ok {
+				rs = append(rs, r)
+			}
+		}
+	}
+	sort.SliceStable(rs, func(i, j int) bool {
+		pi, pj := ex.Prog.Fset.Position(rs[i].Pos()), ex.Prog.Fset.Position(rs[j].Pos())
+		if pi.Line != pj.Line {
+			return pi.Line < pj.Line
+		}
+		return pi.Column < pj.Column
+	})
+	for i, r := range rs {
+		if r == ret {
+			return i + 1
+		}
+	}
+	return 0
 }
 
 // obligePart records one part (one back edge) of a loop obligation; parts with the same name are merged
@@ -787,6 +973,29 @@ func (ex *Exec) obligePart(kind, anchor string, guard, goal *smt.Term, pos token
 		p = ex.Prog.Fset.Position(pos)
 	}
 	ex.loopParts[name] = append(ex.loopParts[name], &Obligation{Name: name, Kind: kind, Guard: guard, Goal: goal, NAssume: len(ex.assumes), Pos: p})
+}
+
+// splitByGuard: when the path condition is a disjunction of mutually exclusive edge conditions (a join of
+// many branches), the goal is checked once per disjunct with the ite-merged values specialised to that
+// branch (the disjunct set to true, its siblings to false). Equivalent to the unsplit obligation.
+func (ex *Exec) splitByGuard(guard, goal *smt.Term) [][2]*smt.Term {
+	c := ex.W.C
+	if guard.Kind != smt.KApp || guard.Op != "or" || len(guard.Args) < 4 || len(guard.Args) > 200 {
+		return [][2]*smt.Term{{guard, goal}}
+	}
+	var out [][2]*smt.Term
+	for i, d := range guard.Args {
+		m := map[*smt.Term]*smt.Term{}
+		for j, o := range guard.Args {
+			if j == i {
+				m[o] = c.True()
+			} else {
+				m[o] = c.False()
+			}
+		}
+		out = append(out, [2]*smt.Term{d, c.Subst(goal, m)})
+	}
+	return out
 }
 
 func (ex *Exec) flushLoopParts() {
@@ -939,6 +1148,7 @@ func (fr *Frame) entryState(ex *Exec) *State {
 
 func (ex *Exec) enterLoop(fr *Frame, li *loopInfo, h *ssa.BasicBlock, st *State, reach *smt.Term, phiVals map[*ssa.Phi]Val) {
 	c := ex.W.C
+	li.kept = nil
 	// 1. invariants hold on entry
 	env := ex.loopEnv(fr, li, st, phiVals)
 	for i, cl := range li.invs {
@@ -968,6 +1178,22 @@ func (ex *Exec) enterLoop(fr *Frame, li *loopInfo, h *ssa.BasicBlock, st *State,
 				for _, bv := range base {
 					bval, have := fr.vals[bv]
 					if !have {
+						if _, isLoad := mods.refLoads[bv]; isLoad {
+							// the field is not stored to in the loop: its value at the head is its value throughout
+							u := bv.(*ssa.UnOp)
+							fa := u.X.(*ssa.FieldAddr)
+							ex.quiet++
+							tmp := st.clone()
+							ex.step(fr, fa, tmp, c.True())
+							ex.step(fr, u, tmp, c.True())
+							ex.quiet--
+							bval = fr.vals[u]
+							delete(fr.vals, u)
+							delete(fr.vals, fa)
+							have = bval.Tm != nil
+						}
+					}
+					if !have {
 						if _, isParam := bv.(*ssa.Parameter); !isParam {
 							okAll = false
 							break
@@ -987,6 +1213,16 @@ func (ex *Exec) enterLoop(fr *Frame, li *loopInfo, h *ssa.BasicBlock, st *State,
 					st.heap[k] = cur
 					continue
 				}
+			}
+			if li.keepOld && hk.Sort.IsArray() && (k[0] == 'E' || k[0] == 'P' || k[0] == 'F') {
+				// declared: only objects allocated inside the loop are written in this component; assumed at the
+				// head, re-proved at every back edge
+				pre := ex.heapGet(st, hk)
+				ex.havocKey(st, hk)
+				p := c.Var("p!k", smt.Int)
+				ex.assume(c.Quant("forall", []*smt.Term{p}, c.Implies(c.And(c.Le(c.IntLit(0), p), c.Lt(p, st.brk)), c.Eq(c.Select(st.heap[k], p), c.Select(pre, p)))))
+				li.kept = append(li.kept, keptHeap{key: hk, pre: pre, brk: st.brk})
+				continue
 			}
 			ex.havocKey(st, hk)
 		}
@@ -1041,6 +1277,7 @@ func (ex *Exec) enterLoop(fr *Frame, li *loopInfo, h *ssa.BasicBlock, st *State,
 	for _, ai := range auto {
 		ex.assume(c.Implies(reach, ai.build(fresh)))
 	}
+	li.headSt = st.clone()
 	li.varPre = nil
 	for _, cl := range li.decr {
 		li.varPre = append(li.varPre, ex.evalInt(env2, cl.E, cl))
@@ -1079,10 +1316,16 @@ func (ex *Exec) backEdge(fr *Frame, li *loopInfo, from, h *ssa.BasicBlock, cond 
 		// auto invariants are monotone-counter facts; they are re-proved, never trusted
 		ex.obligePart("inv-preserved", fmt.Sprintf("loop%d:auto:%s", li.ordinal, ai.name), cond, ai.build(phiVals), token.NoPos, fr.prefix)
 	}
+	for _, kh := range li.kept {
+		p := c.Var("p!k", smt.Int)
+		goal := c.Quant("forall", []*smt.Term{p}, c.Implies(c.And(c.Le(c.IntLit(0), p), c.Lt(p, kh.brk)), c.Eq(c.Select(ex.heapGet(st, kh.key), p), c.Select(kh.pre, p))))
+		ex.obligePart("inv-preserved", fmt.Sprintf("loop%d:old:%s", li.ordinal, kh.key.Name), cond, goal, token.NoPos, fr.prefix)
+	}
 	for i, cl := range li.asserts {
 		aenv := ex.envFor(fr, st, fr.entryState(ex), nil)
 		aenv.atBlock = from
 		aenv.atEnd = true
+		aenv.loop = li
 		label := cl.Label
 		if label == "" {
 			label = fmt.Sprintf("assert%d", i+1)
